@@ -121,7 +121,7 @@ theorem vinv_step {I : Int → Int} {T : Int → Int → Option Int} {st : State
         simp only [Option.some.injEq] at hq
         subst hq
         obtain ⟨_, _, _, _, hpl, hc0⟩ := hi.pre p hp hns
-        obtain ⟨_, _, l0, l1, hdur, _, _, _, _⟩ := hi.all p hp
+        obtain ⟨_, _, l0, l1, hdur, _, _, _, _, _⟩ := hi.all p hp
         obtain ⟨b0, b1⟩ := poolTokens_bounds st.planLiq p.liqPart hpl l0 l1
         simp only []
         have ha : 0 ≤ st.planLiq - ((Dec.ofInt st.planLiq).mul p.liqPart).truncateInt := by omega
